@@ -60,8 +60,14 @@ FSM::FSM(const Clock &clock, const BaseState &startState) :
 		}
 	}
 	
+	// assign the encodings in the order the states were discovered, not in the order of their addresses:
+	// the constants created here get node ids, which determine the order of the exported code
+	std::vector<const BaseState*> states;
 	for (auto &pair : m_state2encoding.anyOrder())
-		*pair.second = m_state2id[pair.first];
+		states.push_back(pair.first);
+	std::sort(states.begin(), states.end(), [this](const BaseState *lhs, const BaseState *rhs) { return m_state2id[lhs] < m_state2id[rhs]; });
+	for (auto *state : states)
+		*m_state2encoding[state] = m_state2id[state];
 }
 
 
